@@ -35,8 +35,9 @@ type IdP struct {
 	seq  int
 	code map[string]*Login // code -> login
 	tok  map[string]*TokState
-	// NextLogin is consumed by the next /auth request.
+	// NextLogin is consumed by the next /auth request that names no login.
 	NextLogin *Login
+	logins    map[string]*Login // behaviours registered under an id (verif_login=<id>)
 	UserinfoCalls []string // access tokens presented to /userinfo
 	Down bool // userinfo answers 500
 }
@@ -74,7 +75,7 @@ func NewIdP() (*IdP, error) {
 	if err != nil {
 		return nil, err
 	}
-	p := &IdP{ln: ln, key: k, bad: k2, ClientID: "rdpgw-client", Secret: "s3cret", code: map[string]*Login{}, tok: map[string]*TokState{}}
+	p := &IdP{ln: ln, key: k, bad: k2, ClientID: "rdpgw-client", Secret: "s3cret", code: map[string]*Login{}, tok: map[string]*TokState{}, logins: map[string]*Login{}}
 	p.URL = "http://" + ln.Addr().String()
 	mux := http.NewServeMux()
 	mux.HandleFunc("/.well-known/openid-configuration", p.discovery)
@@ -114,8 +115,14 @@ func (p *IdP) keys(w http.ResponseWriter, r *http.Request) {
 func (p *IdP) auth(w http.ResponseWriter, r *http.Request) {
 	q := r.URL.Query()
 	p.mu.Lock()
-	l := p.NextLogin
-	p.NextLogin = nil
+	var l *Login
+	if id := q.Get("verif_login"); id != "" {
+		l = p.logins[id]
+		delete(p.logins, id)
+	} else {
+		l = p.NextLogin
+		p.NextLogin = nil
+	}
 	if l == nil {
 		l = &Login{Sub: "user1", Claims: map[string]interface{}{"preferred_username": "user1"}}
 	}
@@ -217,6 +224,26 @@ func (p *IdP) userinfo(w http.ResponseWriter, r *http.Request) {
 	}
 	w.Header().Set("Content-Type", "application/json")
 	json.NewEncoder(w).Encode(map[string]interface{}{"sub": st.Sub, "preferred_username": st.Sub})
+}
+
+// Register stores a login behaviour and returns the id to pass as verif_login.
+func (p *IdP) Register(l *Login) string {
+	p.mu.Lock()
+	defer p.mu.Unlock()
+	p.seq++
+	id := fmt.Sprintf("L%d", p.seq)
+	p.logins[id] = l
+	return id
+}
+
+// State reports how the IdP treats an access token ("unknown" if never issued).
+func (p *IdP) State(at string) string {
+	p.mu.Lock()
+	defer p.mu.Unlock()
+	if t, ok := p.tok[at]; ok {
+		return t.State
+	}
+	return "unknown"
 }
 
 // SetNext sets the behaviour of the next authorization.
